@@ -19,7 +19,7 @@ import (
 func init() {
 	fw.Register(&fw.Check{
 		ID: "C02", Level: "model_checking", Prepare: prepareStreams,
-		Rule:   "every REJECTED run of the shared streams (corpus one-line-edit neighbourhood, context-state representatives, all sequences of <= 2 / 3 directive variants - each also under CRLF and CR line ends -, paste graphs, include scenarios and include graphs, option sets, names; thorough: the scanner-state x token product) and of dedicated include structures (chain of depth 2 and 3, two files from one place, two INCLUDEs on different lines of one file, the same file included from two places) x fault kind (scanner error, context error, duplicate name, schema error, dangling reference, missing path) x faulty file x every assignment of a line-end convention {LF, CRLF, CR} to each file: 0 <= index <= length of the located file; line = 1 + number of line ends before the index and quote = that source line left-trimmed with the documented 200-byte truncation (strict on files with one line-end convention, range-only on mixed files); a fault located outside the root file carries a trace whose first entry is the located file and line and whose every further entry names a file and the line on which the INCLUDE of the previous entry's file really is, ending in the root file; non-trivial = rejected run; distinct = distinct rejected inputs",
+		Rule:   "every REJECTED run of the shared streams (corpus one-line-edit neighbourhood, context-state representatives, all sequences of <= 2 / 3 directive variants - each also under CRLF and CR line ends -, paste graphs, include scenarios and include graphs, option sets, names; thorough: the scanner-state x token product) and of dedicated include structures (chain of depth 2 and 3, two files from one place, two INCLUDEs on different lines of one file, the same file included from two places) x fault kind (scanner error, context error, duplicate name, schema error, dangling reference, missing path) x faulty file x every assignment of a line-end convention {LF, CRLF, CR} to each file: 0 <= index <= length of the located file; line = 1 + number of line ends before the index and quote = that source line left-trimmed with the documented 200-byte truncation (strict on files with one line-end convention, range-only on mixed files); a fault located outside the root file carries a trace whose first entry is the located file and line and whose every further entry names a file and the line on which the INCLUDE of the previous entry's file really is, ending in the root file; non-trivial = rejected run; distinct = distinct rejected inputs ; every single-fault project of C11 / C02 (all fault kinds, places, deliveries) also written with CRLF and with CR line ends: index, line, quote and trace agree with the files as written",
 		Assume: []string{"that the index lies inside the span of the directive at fault is decided for the fault kinds of C11 by C11 (single injected faults with known culprits) and here for schema faults injected into every schema-bearing directive of the pool documents; on all other rejected runs the location is checked for internal consistency"},
 		Run:    runC02, QuickCap: 12 * time.Minute, ThoroughCap: 60 * time.Minute,
 	})
